@@ -423,6 +423,17 @@ fn enf_cases(tier: Tier) -> Vec<EnfCase> {
             }
         }
     }
+    // a conformant ZERO deadline is the shortest of all: the call is cut off at once
+    for side in [Side::Server, Side::Client] {
+        for configured_ms in [None, Some(50u64)] {
+            for latency_ms in [10u64, 300] {
+                out.push(EnfCase { side, malformed: None, caller_ms: Some(0), configured_ms, latency_ms, chop: 0 });
+            }
+        }
+        for latency_ms in [10u64, 300] {
+            out.push(EnfCase { side, malformed: None, caller_ms: Some(200), configured_ms: Some(0), latency_ms, chop: 0 });
+        }
+    }
     // a malformed caller value is ignored: the configured timeout alone decides
     for side in [Side::Server, Side::Client] {
         for bad in ["82f", "+5S", "S", "123456789S", "5 S", "1e3m"] {
@@ -466,7 +477,7 @@ pub fn property(tier: Tier) -> Property {
     let enf = Section::new(
         "enforce",
         Config { hang_secs: 60, ..Default::default() },
-        "cases: the full grid caller timeout {none, 50, 200 ms} x configured timeout {none, 50, 200 ms} x handler latency {10, 100, 300 ms} (off the exact ties) for each side against a NON-tonic peer — Server::timeout driven by a bare hyper HTTP/2 client sending grpc-timeout, and Endpoint::timeout + Request::set_timeout against a bare hyper HTTP/2 server with scripted latency (so that one side's enforcement cannot mask the other's) — plus the same with a malformed caller value (82f, +5S, S, 9 digits, '5 S', 1e3m: ignored, the configured timeout alone decides), plus a tonic-to-tonic pass for the caller-visible status text; in-memory pipes, paused clock (exact virtual durations); oracle: latency below the shorter deadline => the real answer at t = latency; above => CANCELLED 'Timeout expired' at t = min(caller, configured) (+-2 ms timer granularity). Non-trivial = some deadline is set.",
+        "cases: the full grid caller timeout {none, 50, 200 ms} x configured timeout {none, 50, 200 ms} x handler latency {10, 100, 300 ms} (off the exact ties) for each side against a NON-tonic peer — Server::timeout driven by a bare hyper HTTP/2 client sending grpc-timeout, and Endpoint::timeout + Request::set_timeout against a bare hyper HTTP/2 server with scripted latency (so that one side's enforcement cannot mask the other's) — plus zero deadlines (caller 0 or configured 0: cut off at t = 0), plus the same with a malformed caller value (82f, +5S, S, 9 digits, '5 S', 1e3m: ignored, the configured timeout alone decides), plus a tonic-to-tonic pass for the caller-visible status text; in-memory pipes, paused clock (exact virtual durations); oracle: latency below the shorter deadline => the real answer at t = latency; above => CANCELLED 'Timeout expired' at t = min(caller, configured) (+-2 ms timer granularity). Non-trivial = some deadline is set.",
         enf_cases(tier),
         |c: &EnfCase| format!("{c:?}"),
         enf_body,
